@@ -143,9 +143,60 @@ pub fn expected_dof(group: &str) -> usize {
     }
 }
 
+/// Which basis handle drives which field, found by probing (so that a library that orders its
+/// handles differently is still driven correctly).  Canonical field order:
+/// length, ratio, [cell angle], x, y, orientation.  Cached per group.
+pub fn basis_layout(group: &str) -> Result<Vec<usize>, String> {
+    use std::collections::HashMap;
+    use std::sync::Mutex;
+    static CACHE: Mutex<Option<HashMap<String, Vec<usize>>>> = Mutex::new(None);
+    if let Some(v) = CACHE.lock().unwrap().get_or_insert_with(HashMap::new).get(group) {
+        return Ok(v.clone());
+    }
+    let wg = lib_group(group)?;
+    let mut st = PackedState::from_group(LineShape::polygon(5).map_err(|e| e.to_string())?, &wg).map_err(|e| e.to_string())?;
+    st.cell = Cell2::from_family(st.wallpaper.family, 64.);
+    let fields: Vec<Vec<&str>> = if is_oblique(group) {
+        vec![vec!["cell", "length"], vec!["cell", "ratio"], vec!["cell", "angle"], vec!["occupied_sites", "0", "x"], vec!["occupied_sites", "0", "y"], vec!["occupied_sites", "0", "angle"]]
+    } else {
+        vec![vec!["cell", "length"], vec!["cell", "ratio"], vec!["occupied_sites", "0", "x"], vec!["occupied_sites", "0", "y"], vec!["occupied_sites", "0", "angle"]]
+    };
+    let read = |st: &PackedState<LineShape>| -> Result<Vec<f64>, String> {
+        let v = serde_json::to_value(st).map_err(|e| e.to_string())?;
+        fields.iter().map(|f| crate::oracle::xjson::get_f64(&v, f).ok_or_else(|| format!("field {:?} missing", f))).collect()
+    };
+    let n = st.generate_basis().len();
+    if n != fields.len() {
+        return Err(format!("basis has {} handles, expected {}", n, fields.len()));
+    }
+    let mut layout = vec![usize::MAX; fields.len()];
+    for i in 0..n {
+        let before = read(&st)?;
+        {
+            let mut b = st.generate_basis();
+            let old = b[i].get_value();
+            // a value certainly inside any of the ranges these handles can have
+            let probe = if old > 0.3 { old * 0.9 } else { old + 0.17 };
+            b[i].set_value(probe);
+        }
+        let after = read(&st)?;
+        let changed: Vec<usize> = (0..fields.len()).filter(|k| before[*k].to_bits() != after[*k].to_bits()).collect();
+        if changed.len() != 1 {
+            return Err(format!("handle {} of group {} changes {} fields", i, group, changed.len()));
+        }
+        layout[changed[0]] = i;
+    }
+    if layout.iter().any(|x| *x == usize::MAX) {
+        return Err("some field is not driven by any handle".into());
+    }
+    CACHE.lock().unwrap().get_or_insert_with(HashMap::new).insert(group.to_string(), layout.clone());
+    Ok(layout)
+}
+
 /// Write parameters into a state through its own basis handles (values are clamped by the
 /// library to each handle's range; the caller reads back what was actually stored).
 pub fn set_params_via_basis<T: State>(state: &T, group: &str, p: &Params) -> Result<(), String> {
+    let layout = basis_layout(group)?;
     let mut basis = state.generate_basis();
     let want: Vec<f64> = if is_oblique(group) {
         vec![p.len, p.ratio, p.angle, p.x, p.y, p.phi]
@@ -155,10 +206,20 @@ pub fn set_params_via_basis<T: State>(state: &T, group: &str, p: &Params) -> Res
     if basis.len() != want.len() {
         return Err(format!("basis has {} handles, expected {}", basis.len(), want.len()));
     }
-    for (b, v) in basis.iter_mut().zip(want.iter()) {
-        b.set_value(*v);
+    for (k, v) in want.iter().enumerate() {
+        basis[layout[k]].set_value(*v);
     }
     Ok(())
+}
+
+/// declared ranges in *basis order* for a stage starting from the given canonical ranges
+pub fn to_basis_order(group: &str, canonical: &[(f64, f64)]) -> Result<Vec<(f64, f64)>, String> {
+    let layout = basis_layout(group)?;
+    let mut out = vec![(0., 0.); canonical.len()];
+    for (k, r) in canonical.iter().enumerate() {
+        out[layout[k]] = *r;
+    }
+    Ok(out)
 }
 
 pub fn basis_values<T: State>(state: &T) -> Vec<f64> {
